@@ -671,13 +671,6 @@ class UnnormalizeVectWithIntegers(Contract):
         t = z3.Real("t!ra")
         return [("numpy.round-is-integer-valued", z3.ForAll([t], z3.IsInt(np_round(t)), patterns=[np_round(t)]))]
 
-    def finding_regions(self, c):
-        d = N2.S(c.old.self)
-        i = z3.Int("i!fr")
-        # (written as the negation of a universally quantified formula with a trigger, so that "outside the region" is a usable hypothesis)
-        all_integer = z3.ForAll([i], z3.Implies(z3.And(0 <= i, i < d.dim), N2.el(d.ic, i)), patterns=[N2.el(d.ic, i)])
-        return {"integer-common-dtype-with-a-float-component": z3.And(d.kind == str_lit("i"), z3.Not(all_integer))}
-
     def ensures(self, c):
         d = N2.S(c.old.self)
         x, r = c.old.x_vect, c.result
@@ -691,8 +684,8 @@ class UnnormalizeVectWithIntegers(Contract):
         cast = ":after-the-integer-cast" if r.obj.kind == "i" else ""
         return [("length", N2.ln(r) == d.dim),
                 ("norm-factor-is-ub-minus-lb", z3.ForAll([j], z3.Implies(z3.And(0 <= j, j < N2.ln(d.ni)), N2.el(d.nf, nij) == N2.el(d.ub, nij) - N2.el(d.lb, nij)))),
-                # (the same two clauses on every path; on the paths that end with the cast of the whole vector to int64 they carry a label of their
-                # own, so that the known finding about that cast - known_findings.json - is tied to exactly these paths)
+                # (the same two clauses on every path; the paths that end with the cast of the whole vector to int64 - all-integer design spaces
+                # only, since the repair 4832538 - carry a label of their own)
                 ("normalized-components" + cast, z3.ForAll([j], z3.Implies(z3.And(0 <= j, j < N2.ln(d.ni)), relem(r, nij) == z3.If(mlb, rounded_if_integer(d, nij, affine), affine)))),
                 ("other-components" + cast, z3.ForAll([i], z3.Implies(z3.And(0 <= i, i < d.dim, N2.not_normalized(d, i)),
                                                                       relem(r, i) == z3.If(mlb, rounded_if_integer(d, i, N2.el(x, i)), N2.el(x, i))))),
